@@ -5,6 +5,7 @@ import MoSql.Script
 import MoSql.Query
 import MoSql.Lex
 import MoSql.Window
+import MoSql.Skip
 /-
 Line-protocol driver: one JSON request per line on stdin, one JSON answer per line on stdout.
 Imports the model files and Lean's JSON library only (no Mathlib), so it is also built as the
@@ -316,6 +317,10 @@ def handleAccumulate (req : Json) : Except String String := do
     pure ("{\"model\":" ++ (Script.unwrap (Script.accumulate js)).render ++ "}")
   | _ => err "outs must be a list"
 
+def handleSkip (req : Json) : Except String String := do
+  let text ← req.getObjValAs? String "text"
+  pure ("{\"n\":" ++ toString (Skip.skipCount text) ++ "}")
+
 def handle (line : String) : String :=
   match Json.parse line with
   | .error e => "{\"error\":" ++ jstr ("json: " ++ e) ++ "}"
@@ -330,6 +335,7 @@ def handle (line : String) : String :=
       | .ok "union" => handleUnion req
       | .ok "lex" => handleLex req
       | .ok "frame" => handleFrame req
+      | .ok "skip" => handleSkip req
       | .ok "fmtTable" => pure handleFmtTable
       | .ok "ping" => pure "{\"pong\":true}"
       | .ok o => err ("unknown op " ++ o)
